@@ -519,6 +519,11 @@ def main():
         if not unmatched:
             r["outcome"] = "known-finding-only"
             continue
+        if os.environ.get("VERIF_FIRST_VIOLATION") and violations:
+            # (evaluation of seeded changes only) one replay-confirmed violation decides the run
+            r["outcome"] = "failed-not-replayed"
+            say(f"    {r['name']}: failed as well; not replayed (a violation is already confirmed)")
+            continue
         if os.environ.get("VERIF_NO_REPLAY"):
             for fc in unmatched[:6]:
                 say(f"    [dev, no replay] {r['name']} failed check: {fc['desc']} @ {fc['loc'][-80:]}")
